@@ -77,16 +77,17 @@ const (
 )
 
 type genv struct {
-	t        *rapid.T
-	p        Profile
-	vars     map[string]gkind
-	names    []string // assignable names
-	inLoop   int
-	budget   int
-	fresh    int
-	failed   bool
-	noGrowth bool
-	anyLoop  int // loop nesting, also counted through capture bodies (inLoop is reset there for break/continue)
+	t          *rapid.T
+	p          Profile
+	vars       map[string]gkind
+	names      []string // assignable names
+	inLoop     int
+	budget     int
+	fresh      int
+	failed     bool
+	noGrowth   bool
+	anyLoop    int // loop nesting, also counted through capture bodies (inLoop is reset there for break/continue)
+	noTablerow int // > 0 inside a capture body whose text generated expressions will read
 }
 
 var textAlphabet = []string{"", "x", "ab", " ", "y ", " z", "\n", ". ", "é", "1,"}
@@ -296,7 +297,7 @@ func (g *genv) node(depth int) *N {
 	}
 	if g.p.Loops && deep {
 		opts = append(opts, opt{3, func() *N { return g.loopNode(depth, "for") }})
-		if g.p.Tablerow {
+		if g.p.Tablerow && g.noTablerow == 0 {
 			opts = append(opts, opt{1, func() *N { return g.loopNode(depth, "tablerow") }})
 		}
 	}
@@ -391,7 +392,15 @@ func (g *genv) capture(depth int) *N {
 	// break/continue escaping a capture body is excluded by construction
 	saved := g.inLoop
 	g.inLoop = 0
+	if name == "s" {
+		// s is read by generated expressions (compared, measured); the reference model leaves out
+		// tablerow's markup, so text captured into s must not contain any
+		g.noTablerow++
+	}
 	body := g.block(depth+1, 1)
+	if name == "s" {
+		g.noTablerow--
+	}
 	g.inLoop = saved
 	if name == "s" {
 		g.vars[name] = gStr
